@@ -553,3 +553,8 @@ def run(rep, programs):
     # drain returns every reservation, also an exhausted one: its tree must lose the reserved flag (validate(), later reservations)
     from props import c10
     c10.r_drain_total(rep, prog)
+
+
+EXPLANATION = EXPLANATION + (
+    ' R-HUGE-COORD / R-UNITS (shared with C01) and R-ONLINE-FLOW (shared with C15): the counter charged and the bits flipped belong to one huge frame; Online re-installs the exact count of the tree being changed.'
+)
